@@ -336,6 +336,35 @@ func enumerate(rel string, src []byte) []mutant {
 					add(x, x.Pos(), x.End(), "{}", "emptyelse", fn)
 				}
 			}
+			// adjacent statements exchanged (ordering mutants)
+			var list []ast.Stmt
+			switch x := n.(type) {
+			case *ast.BlockStmt:
+				list = x.List
+			case *ast.CaseClause:
+				list = x.Body
+			case *ast.CommClause:
+				list = x.Body
+			}
+			movable := func(st ast.Stmt) bool {
+				switch y := st.(type) {
+				case *ast.ExprStmt, *ast.IncDecStmt, *ast.SendStmt, *ast.GoStmt, *ast.DeferStmt, *ast.IfStmt, *ast.ForStmt, *ast.RangeStmt, *ast.SelectStmt, *ast.SwitchStmt:
+					return true
+				case *ast.AssignStmt:
+					return y.Tok != token.DEFINE
+				}
+				return false
+			}
+			for i := 0; i+1 < len(list); i++ {
+				a, b := list[i], list[i+1]
+				if !movable(a) || !movable(b) {
+					continue
+				}
+				ta := string(src[off(a.Pos()):off(a.End())])
+				mid := string(src[off(a.End()):off(b.Pos())])
+				tb := string(src[off(b.Pos()):off(b.End())])
+				add(a, a.Pos(), b.End(), tb+mid+ta, "swap", fn)
+			}
 			return true
 		})
 	}
